@@ -11,10 +11,10 @@ expression tokens (Polish notation, fixed arity):
   c:eq|ne|lt|le|gt|ge e e    and e e    or e e    a:+|-|* e e    if e e e
         q:<m>/<k> (xs:decimal m / 10^k)   u:<hex>… (xs:untypedAtomic)   n:<i> (node, pre-order index)
         d:-0 (negative zero);  doc=<hex>…|<hex>…|- … the string values of the nodes (`-` = empty, `_` = no document)
-Answer:  model=<result> spec=<result> k=<0|1> q=<0|1> t=<0|1> lazy=<result> errs=<codes|_>
-         (k, q, t: triggers of the findings F08b, F08q, F08t; lazy / errs: the permitted outcomes, Spec.Permitted)
+Answer:  model=<result> spec=<result> k=<0|1> u=<0|1> lazy=<result> errs=<codes|_>
+         (k, u: triggers of the findings F08b, F08u; lazy / errs: the permitted outcomes, Spec.Permitted)
 result = `_` (empty) | atoms joined by `,` | ERR:<code>.
-Kernel probes:  rnd=<n>/<d> → the double nearest to n/d;  sig28=<n>/<d> → n/d at 28 significant digits.
+Kernel probes:  lex=<hex|-> → the xs:double of a lexical form or ERR:FORG0001;  rnd=<n>/<d> → the double nearest to n/d;  sig28=<n>/<d> → n/d at 28 significant digits.
 -/
 import EPV.Proto
 import EPV.Spec.FOSeqLazy
@@ -178,7 +178,7 @@ def showAtom : Atom → String
   | .bool b => if b then "b:1" else "b:0"
 
 def showErr : Err → String
-  | .XPTY0004 => "ERR:XPTY0004" | .FORG0003 => "ERR:FORG0003" | .FORG0004 => "ERR:FORG0004"
+  | .XPTY0004 => "ERR:XPTY0004" | .FORG0001 => "ERR:FORG0001" | .FORG0003 => "ERR:FORG0003" | .FORG0004 => "ERR:FORG0004"
   | .FORG0005 => "ERR:FORG0005" | .FORG0006 => "ERR:FORG0006" | .XPDY0002 => "ERR:XPDY0002"
   | .XPST0008 => "ERR:XPST0008" | .UNSUPPORTED => "ERR:UNSUPPORTED"
 
@@ -210,6 +210,10 @@ def answer (line : String) : String :=
       | some n, some d => showD (rnd n d)
       | _, _ => "bad-rnd"
     | _ => "bad-rnd"
+  else if (field fs "lex") != "" then
+    match parseStr (if field fs "lex" == "-" then "" else field fs "lex") with
+    | some str => (match lexDouble str with | some d => showD d | none => "ERR:FORG0001")
+    | none => "bad-lex"
   else if (field fs "sig28") != "" then
     match (field fs "sig28").splitOn "/" with
     | [n, d] => match int? n, nat? d with
@@ -228,20 +232,16 @@ def answer (line : String) : String :=
       let c : Ctx := { item := item, pos := pos, size := size, vars := vars, doc := doc }
       let m := parseEval e c
       let s := Spec.sem Spec.foSum e c
-      -- trigger of finding F08q: a top-level fn:sum / fn:avg whose compensated sum differs
-      let q := match e with
-        | .fn1 .sum a | .fn2 .sum a _ => (match Spec.sem Spec.foSum a c with | .ok v => !Spec.sumAgrees v | _ => false)
-        | .fn1 .avg a => (match Spec.sem Spec.foSum a c with | .ok v => !Spec.avgAgrees v | _ => false)
-        | _ => false
-      let t := match e with
-        | .fn1 .sum a | .fn1 .avg a | .fn1 .min a | .fn1 .max a | .fn2 .sum a _ =>
-          (match Spec.sem Spec.foSum a c with | .ok v => Spec.hugeIntPromoted v | _ => false)
+      -- trigger of finding F08u: a top-level fn:sum over a node with a non-numeric string value
+      let u := match e with
+        | .fn1 .sum a | .fn2 .sum a _ =>
+          (match Spec.sem Spec.foSum a c with | .ok v => Spec.sumNodeInvalid c.doc v | _ => false)
         | _ => false
       -- the outcomes XPath permits (Spec.Permitted): the lazy value, the reachable error codes
       let lzv := (Spec.lz Spec.foSum e c).force
       let cs := (Spec.codes Spec.foSum e c).eraseDups
       let errs := if cs.isEmpty then "_" else ",".intercalate (cs.map showErr)
-      s!"model={showR m} spec={showR s} k={if e.loopVarInRange then 1 else 0} q={if q then 1 else 0} t={if t then 1 else 0} lazy={showR lzv} errs={errs}"
+      s!"model={showR m} spec={showR s} k={if e.loopVarInRange then 1 else 0} u={if u then 1 else 0} lazy={showR lzv} errs={errs}"
   | some (_, _ :: _), _, _, _, _ => "bad-expr-trailing"
   | none, _, _, _, _ => "bad-expr"
   | _, _, _, _, _ => "bad-line"
